@@ -1657,6 +1657,12 @@ class InventoryTreeTransform(DiskTreeTransform):
             # Either way, we know it doesn't exist *right now*
             # See also bug #248448
             return
+        except OSError as e:
+            # A symlink that (directly or indirectly) points at itself has no
+            # mode to take over either.
+            if e.errno != errno.ELOOP:
+                raise
+            return
         if typefunc(mode):
             osutils.chmod_if_possible(self._limbo_name(trans_id), mode)
 
